@@ -120,6 +120,7 @@ func (m *Model) Key(skipBulk func(uint32) bool) string {
 type Write struct {
 	Col    string
 	V      Val
+	Via    string // "" typed setter, "any" Row.SetAny, "many" Row.SetMany with a one-key map
 	Merge  bool
 	TTL    time.Duration // with SetTTL / Extend
 	SetTTL bool
@@ -164,6 +165,9 @@ func (a Act) String() string {
 			op := "="
 			if w.Merge {
 				op = "+="
+			}
+			if w.Via != "" {
+				op = "=(" + w.Via + ")"
 			}
 			k := Kinds["int64"]
 			_ = k
@@ -449,6 +453,10 @@ func (w *World) applyWrites(txn *column.Txn, r column.Row, off uint32, ws []Writ
 			txn.TTL().Extend(x.TTL)
 		case x.Merge:
 			w.M.Col(x.Col).Merge(r, x.Col, x.V)
+		case x.Via == "any":
+			r.SetAny(x.Col, w.M.Col(x.Col).ToAny(x.V))
+		case x.Via == "many":
+			r.SetMany(map[string]any{x.Col: w.M.Col(x.Col).ToAny(x.V)})
 		default:
 			w.M.Col(x.Col).Set(r, x.Col, x.V)
 		}
